@@ -4,7 +4,7 @@
 # property check against it with a scratch verif dir (so committed evidence is untouched),
 # prints which properties/rules fire, and removes the scratch worktree again.
 set -u
-PATCH="$(readlink -f "$1")"; TIER="${2:-quick}"
+PATCH="$(readlink -f "$1")"; TIER="${2:-quick}" # (ignored: the evaluation loads the tree once and runs every rule)
 HERE="$(cd "$(dirname "$0")/.." && pwd)"
 WT=$(mktemp -d /tmp/ssecheck-eval-XXXXXX); EV=$(mktemp -d /tmp/ssecheck-evalverif-XXXXXX)
 BASE="${MUT_BASE:-HEAD}"
@@ -17,14 +17,5 @@ fi
 cp "$HERE/KNOWN_FINDINGS.txt" "$EV/" 2>/dev/null
 export GOFLAGS=-mod=mod GOPROXY=off GOSUMDB=off GOTOOLCHAIN=local CGO_ENABLED=0; unset GOWORK
 ( cd "$WT/repo" && go build ./... ) || { echo "MUTANT DOES NOT BUILD"; exit 4; }
-fired=0
-for id in $("$HERE/bin/ssecheck" -list | awk '{print $1}'); do
-  out=$("$HERE/bin/ssecheck" -repo "$WT/repo" -verif "$EV" -property "$id" -tier "$TIER" 2>&1)
-  if echo "$out" | grep -q '^VIOLATION'; then
-    fired=1
-    echo "== $id FIRES"
-    echo "$out" | grep -E '^(violated|undecided|load-error)' | sed "s#$EV/##" | cut -c1-400
-  fi
-done
-[ $fired = 0 ] && echo "== NO CHECK FIRES"
+"$HERE/bin/ssecheck" -repo "$WT/repo" -verif "$EV" -eval 2>&1 | sed "s#$EV/##" | cut -c1-400
 exit 0
